@@ -8,6 +8,7 @@ CONSTANTS
   PlusLocksKids = FALSE
   Scenario = "half"
   MaxTries = 4
+  RecheckName = TRUE
   LowestFree = FALSE
   OneOp = {1}
 INVARIANTS TypeOK Refines NoSelfWait NoDeadlock LocksReleased TakenReturned RetryBound
